@@ -256,7 +256,11 @@ func (reproSuite) Run(raw json.RawMessage) []Step {
 			}
 		}
 	}
-	if leak != "" && verdict == "pass" {
+	if leak != "" && goOut != "all-variants-failed" {
+		// names the cause, so it goes first when the variants differ as well
+		if verdict != "pass" {
+			leak += " [and the variants differ: " + tail(goOut, 300) + "]"
+		}
 		goOut = "scratch-path: " + leak
 		verdict = "fail:" + goOut
 	}
@@ -294,7 +298,7 @@ func (reproSuite) Run(raw json.RawMessage) []Step {
 	}
 	h := sha256.Sum256(raw)
 	return []Step{{Line: "x.repro\t" + hex.EncodeToString(h[:8]), Go: goOut, Mode: "oracle-go", GoSpec: verdict, GoClass: goClass, NoImpl: true, Trivial: goOut == "all-variants-failed",
-		Desc: fmt.Sprintf("%d pkgs, world %v, archs %v, %s, sbom=%v, %d variants, %d output files", len(c.Img.Pkgs), c.Img.IC.Contents.Packages, c.Img.Archs, layers, c.Img.SBOM, len(c.Variants), nfiles),
+		Desc: fmt.Sprintf("%d pkgs, world %v, archs %v, %s, sbom=%v, %s%d variants %v, %d output files", len(c.Img.Pkgs), c.Img.IC.Contents.Packages, c.Img.Archs, layers, c.Img.SBOM, reproDimsDesc(&c), len(c.Variants), variantNames(c.Variants), nfiles),
 		Tags: append(dims, "archs:" + fmt.Sprint(len(c.Img.Archs)), "layers:" + layers, "result:" + strings.SplitN(goOut, ":", 2)[0], fmt.Sprintf("variants:%d", len(c.Variants)), fmt.Sprintf("offline-failed:%v", offlineFailed))}}
 }
 
